@@ -33,6 +33,7 @@ type c01Broker struct {
 	seen    map[int]int
 	pub     *Auto
 	pub4    *Auto // a second publisher speaking MQTT 3.1.1: every other publish goes through it
+	pub3    *Auto // a third one speaking MQTT 3.1 ("MQIsdp"): every third
 	npub    int
 	pkid    uint16
 	subid   uint16
@@ -130,6 +131,11 @@ func (r *c01Broker) publishers() error {
 		return fmt.Errorf("publisher (3.1.1): %v", err)
 	}
 	r.pub4 = pc4.Auto(false)
+	pc3 := r.b.Dial()
+	if _, err := pc3.Connect(ConnectOpts{ID: "c01pub3", Ver: mqttp.ProtocolV31, Clean: true}); err != nil {
+		return fmt.Errorf("publisher (3.1): %v", err)
+	}
+	r.pub3 = pc3.Auto(false)
 	return nil
 }
 
@@ -227,8 +233,10 @@ func (r *c01Broker) publish(topic string, payload []byte, qos byte, retain bool)
 	r.pkid++
 	r.npub++
 	pub := r.pub
-	if r.npub%2 == 0 {
+	if r.npub%3 == 1 {
 		pub = r.pub4
+	} else if r.npub%3 == 2 {
+		pub = r.pub3
 	}
 	nAck := pub.CountOthers(mqttp.PUBACK)
 	nComp := pub.CountOthers(mqttp.PUBCOMP)
